@@ -11,6 +11,7 @@
 #ifndef VERIF_BAGKERNEL_HPP
 #define VERIF_BAGKERNEL_HPP
 #include "hcommon.hpp"
+#include "utils/tbfperiodicshifter.hpp"
 #include <unordered_map>
 #include <cmath>
 #include <cstdint>
@@ -76,6 +77,7 @@ struct Context {
     void resetRecording(){ elems.clear(); kernelWorkers.clear(); kernelCalls = 0; for(auto& c : counters) c = 0; }
     long elemDigest() const { long s = 0; for(auto& e : elems) s = (s + elemHash(e)) % 1000003; return s; }
     void arg(bool cond, const char* what){ if(rep) rep->ok("Arg", scen, cond, what); }
+    void shiftck(bool cond, const char* what){ if(rep) rep->ok("Shift", scen, cond, what); }
 };
 
 template <long Dim> inline Context<Dim>& ctx(){ static Context<Dim> c; return c; }
@@ -130,8 +132,42 @@ private:
             C.arg(inside, "particle handed to a leaf operator lies outside that leaf's box");
         }
     }
+    // periodic mode: what a position-based kernel does with a neighbour reached across a face (src/utils/tbfperiodicshifter.hpp), on the
+    // leaf headers the library passes: the shift must be the image number of Grid!ImageOf times the box width, and the shifted copies of the
+    // source particles must lie in the box of the leaf at (target + decoded offset)
+    template <class SymbS, class SymbT, class PartsS>
+    void checkShift(const SymbS& sSrc, const SymbT& sTgt, long code, const PartsS& pSrc, long nSrc) const {
+        if constexpr(SpaceIndexType::IsPeriodic){
+            auto& C = ctx<Dim>();
+            long p3 = 1; for(long d = 0; d < Dim; ++d) p3 *= 3;
+            if(code < 0 || code >= p3) return;      // reported by the offset check
+            using Shifter = typename TbfPeriodicShifter<RealType, SpaceIndexType>::Neighbor;
+            long off[Dim], img[Dim]; dec(code, 3, 1, off);
+            const long side = 1L << (C.height - 1); bool imgOk = true, any = false;
+            for(long d = 0; d < Dim; ++d){ const long k = sTgt.boxCoord[d] + off[d] - sSrc.boxCoord[d]; if(k % side != 0 || k / side < -1 || k / side > 1) imgOk = false; img[d] = k / side; any = any || img[d] != 0; }
+            if(!imgOk) return;                       // reported by the offset check
+            C.shiftck(Shifter::NeedToShift(sSrc, sTgt, spaceSys, code) == any, "TbfPeriodicShifter::NeedToShift disagrees with the image of the neighbour");
+            const auto coef = Shifter::GetShiftCoef(sSrc, sTgt, spaceSys, code);
+            bool coefOk = true; for(long d = 0; d < Dim; ++d) coefOk = coefOk && coef[d] == RealType(img[d]) * spaceSys.getConfiguration().getBoxWidths()[d];
+            C.shiftck(coefOk, "TbfPeriodicShifter::GetShiftCoef is not image * box width");
+            const auto dup = Shifter::DuplicatePositionsAndApplyShift(sSrc, sTgt, spaceSys, code, pSrc, nSrc);
+            bool inside = true, rest = true;
+            for(long i = 0; i < nSrc; ++i){
+                for(long d = 0; d < Dim; ++d){
+                    const double lo = C.corner[d] + 2 * C.halfLeaf[d] * double(sTgt.boxCoord[d] + off[d]), hi = lo + 2 * C.halfLeaf[d];
+                    const double x = static_cast<double>(dup[d][i]);
+                    if(!(x >= lo && x <= hi)) inside = false;
+                }
+                for(long v = Dim; v < (long)dup.size(); ++v) if(std::memcmp(&dup[v][i], &pSrc[v][i], sizeof(dup[v][i])) != 0) rest = false;
+            }
+            C.shiftck(inside, "periodic image: the shifted copy of a source particle does not lie in the box of the leaf at target + offset");
+            C.shiftck(rest, "periodic image: values beyond the coordinates were altered by the shifted copy");
+            Shifter::FreePositions(dup);
+        }
+    }
+    SpaceIndexType spaceSys;
 public:
-    explicit BagKernel(const SpacialConfiguration& conf){
+    explicit BagKernel(const SpacialConfiguration& conf) : spaceSys(conf) {
         auto& C = ctx<Dim>();
         for(long d = 0; d < Dim; ++d) wl0[d] = std::lround(double(conf.getBoxWidths()[d]) / C.halfLeaf[d]);
         cfgHeight = conf.getTreeHeight();
@@ -305,6 +341,7 @@ public:
         auto& C = ctx<Dim>(); C.useKernel(this); C.counters[5] += n1 * n2;
         checkParticles(s1, i1, p1, n1, 0); checkParticles(s2, i2, p2, n2, 0);
         checkP2POffset(s1, s2, code, false);
+        checkShift(s1, s2, code, p1, n1);
         C.tch(p1[0], false); C.tch(p2[0], false); C.tch(r1[0], true); C.tch(r2[0], true);
         long t[Dim], m[Dim]; dec(code, 3, 1, t); for(long d = 0; d < Dim; ++d){ t[d] *= 2; m[d] = -t[d]; }
         for(long i = 0; i < n2; ++i) for(long j = 0; j < n1; ++j) r2[0][i].add(i1[j], t, 1);     // the target sees its neighbour at +offset
@@ -326,6 +363,7 @@ public:
                     if(C.periodic){ if(((off[d] - diff) % side) != 0) offOk = false; } else if(off[d] != diff) offOk = false; }
                 C.arg(offOk, "P2PTsm: source leaf does not sit at the relative offset encoded by its position code"); }
         }
+        checkShift(s1, s2, code, p1, n1);
         C.tch(p1[0], false); C.tch(p2[0], false); C.tch(r2[0], true);
         long t[Dim]; dec(code, 3, 1, t); for(long d = 0; d < Dim; ++d) t[d] *= 2;
         for(long i = 0; i < n2; ++i) for(long j = 0; j < n1; ++j) r2[0][i].add(i1[j], t, 1);
